@@ -83,6 +83,9 @@ Definition F64ops : fops :=
 Definition enc_of (encb : N -> bool) (reason : pstr) (_ line : pstr) : option pstr :=
   if forallb encb line then None else Some reason.
 
+(* the errors= argument of codecs.open the readers are written for *)
+Definition surrogateescape : pstr := [115; 117; 114; 114; 111; 103; 97; 116; 101; 101; 115; 99; 97; 112; 101]%N.
+
 Definition surrogates_not_allowed : pstr :=
   [115; 117; 114; 114; 111; 103; 97; 116; 101; 115; 32; 110; 111; 116; 32; 97; 108; 108; 111; 119; 101; 100]%N.
 
@@ -103,7 +106,7 @@ Proof. destruct g; reflexivity. Qed.
 
 Section GuesserFile.
 Context (ws : N -> bool) (pfloat : pstr -> option float) (encb : N -> bool) (reason : pstr).
-Context (copen : pstr -> pstr -> option (list pstr)).
+Context (copen : pstr -> pstr -> option pstr -> option (list pstr)).
 
 Notation onfail := (onfail_of_reason reason).
 Notation py_load := (py_load_from_file F64ops ws pfloat (enc_of encb reason) copen).
@@ -156,10 +159,12 @@ Fixpoint grun (lines : list pstr) (st : bool * Z * float * list (rt_item float))
   end.
 
 Lemma load_from_file_run filename encoding lines :
-  copen filename encoding = Some lines ->
+  copen filename encoding (Some surrogateescape) = Some lines ->
   py_load [] filename encoding = grun lines (false, 0%Z, (-1)%float, []).
 Proof.
-  intros Ho. cbv beta zeta delta [py_load_from_file]. rewrite Ho.
+  intros Ho. cbv beta zeta delta [py_load_from_file].
+  match goal with |- context [rt_open (copen ?a ?b ?c)] => replace (copen a b c) with (copen filename encoding (Some surrogateescape)) by reflexivity end.
+  rewrite Ho.
   cbn [rt_open rt_bind]. unfold rt_for_file, rt_fopen. cbn [f_all f_rest].
   match goal with |- rt_for_lines _ _ ?b _ _ _ = _ => set (body := b) end.
   assert (Hbody : forall ln st, body ln st = gstep ln st).
@@ -248,26 +253,28 @@ Qed.
    whitespace class, float() and codec, the translated _load_from_file called on an
    empty list returns what the model reader returns *)
 Theorem load_from_file_eq filename encoding lines :
-  copen filename encoding = Some lines ->
+  copen filename encoding (Some surrogateescape) = Some lines ->
   agrees (py_load [] filename encoding)
          (match guesser_items ws pfloat encb onfail lines false with Some its => group_items its | None => None end).
 Proof. intros Ho. rewrite (load_from_file_run _ _ _ Ho). apply grun_start. Qed.
 
 Corollary load_from_file_is_load_guesser (lb : N -> bool) filename encoding text :
-  copen filename encoding = Some (lines_keep lb text) ->
+  copen filename encoding (Some surrogateescape) = Some (lines_keep lb text) ->
   agrees (py_load [] filename encoding) (load_guesser lb ws pfloat encb onfail text).
 Proof. intros Ho. unfold load_guesser. apply load_from_file_eq. exact Ho. Qed.
 
 (* a file that cannot be opened: False, the list untouched *)
 Theorem load_from_file_no_file gs filename encoding :
-  copen filename encoding = None -> py_load gs filename encoding = Done (gs, false).
-Proof. intros Ho. cbv beta zeta delta [py_load_from_file]. rewrite Ho. reflexivity. Qed.
+  copen filename encoding (Some surrogateescape) = None -> py_load gs filename encoding = Done (gs, false).
+Proof. intros Ho. cbv beta zeta delta [py_load_from_file].
+  match goal with |- context [rt_open (copen ?a ?b ?c)] => replace (copen a b c) with (copen filename encoding (Some surrogateescape)) by reflexivity end.
+  rewrite Ho. reflexivity. Qed.
 
 (* the translated function never lets an exception escape *)
 Theorem load_from_file_total filename encoding :
   exists gs b, py_load [] filename encoding = Done (gs, b).
 Proof.
-  destruct (copen filename encoding) as [lines|] eqn:Ho.
+  destruct (copen filename encoding (Some surrogateescape)) as [lines|] eqn:Ho.
   - pose proof (load_from_file_eq _ _ _ Ho) as H. unfold agrees in H.
     destruct (match guesser_items ws pfloat encb onfail lines false with Some its => group_items its | None => None end);
       [eauto|destruct H; eauto].
@@ -650,7 +657,7 @@ Proof. induction d as [|[k' v'] r IH]; intros k v; cbn; [reflexivity|]. now rewr
 
 Section ScorerFile.
 Context (ws : N -> bool) (pfloat : pstr -> option float) (encb : N -> bool) (reason : pstr).
-Context (copen : pstr -> pstr -> option (list pstr)).
+Context (copen : pstr -> pstr -> option pstr -> option (list pstr)).
 
 Notation onfail := (onfail_of_reason reason).
 Notation py_sload := (py_scorer_load_from_file F64ops ws pfloat (enc_of encb reason) copen).
@@ -671,11 +678,13 @@ Definition sstep (ln : pstr) (d : list (TextFile.str * float))
 (* THE TIE, scorer reader: for every file, the translated _load_from_file of the scorer returns
    exactly what the model reader returns: the counter as filled so far and True / False *)
 Theorem scorer_load_from_file_eq d filename encoding lines :
-  copen filename encoding = Some lines ->
+  copen filename encoding (Some surrogateescape) = Some lines ->
   py_sload d filename encoding =
   Done (snd (scorer_items ws pfloat encb onfail lines d), fst (scorer_items ws pfloat encb onfail lines d)).
 Proof.
-  intros Ho. cbv beta zeta delta [py_scorer_load_from_file]. rewrite Ho.
+  intros Ho. cbv beta zeta delta [py_scorer_load_from_file].
+  match goal with |- context [rt_open (copen ?a ?b ?c)] => replace (copen a b c) with (copen filename encoding (Some surrogateescape)) by reflexivity end.
+  rewrite Ho.
   cbn [rt_open rt_bind]. unfold rt_for_file, rt_fopen. cbn [f_all f_rest].
   match goal with |- rt_for_lines _ _ ?b _ _ _ = _ => set (body := b) end.
   assert (Hbody : forall ln d0, body ln d0 = sstep ln d0).
@@ -699,21 +708,23 @@ Proof.
 Qed.
 
 Corollary scorer_load_from_file_is_load_scorer (lb : N -> bool) filename encoding text :
-  copen filename encoding = Some (lines_keep lb text) ->
+  copen filename encoding (Some surrogateescape) = Some (lines_keep lb text) ->
   py_sload [] filename encoding =
   Done (snd (load_scorer lb ws pfloat encb onfail text), fst (load_scorer lb ws pfloat encb onfail text)).
 Proof. intros Ho. unfold load_scorer. now apply scorer_load_from_file_eq. Qed.
 
 Theorem scorer_load_from_file_no_file d filename encoding :
-  copen filename encoding = None -> py_sload d filename encoding = Done (d, false).
-Proof. intros Ho. cbv beta zeta delta [py_scorer_load_from_file]. rewrite Ho. reflexivity. Qed.
+  copen filename encoding (Some surrogateescape) = None -> py_sload d filename encoding = Done (d, false).
+Proof. intros Ho. cbv beta zeta delta [py_scorer_load_from_file].
+  match goal with |- context [rt_open (copen ?a ?b ?c)] => replace (copen a b c) with (copen filename encoding (Some surrogateescape)) by reflexivity end.
+  rewrite Ho. reflexivity. Qed.
 End ScorerFile.
 
 (* ---------------------------------------------------------------- guesser: load_omen_keyspace *)
 
 Section OmenKeyspaceFile.
 Context (ws : N -> bool) (pint : pstr -> option Z).
-Context (sopen : pstr -> pstr -> option (list pstr)) (pjoin : list pstr -> pstr).
+Context (sopen : pstr -> pstr -> option pstr -> option (list pstr)) (pjoin : list pstr -> pstr).
 
 (* the reader spelled out: rstrip, split on TAB, int() of the first two fields, the dict filled in
    file order; nothing is caught (IndexError of a missing field, ValueError of int()) *)
@@ -743,14 +754,14 @@ Definition omen_keyspace_txt : pstr := [111; 109; 101; 110; 95; 107; 101; 121; 1
 
 Theorem load_omen_keyspace_eq dir encoding :
   py_load_omen_keyspace ws pint sopen pjoin dir encoding =
-  match sopen (pjoin [dir; omen_dir; omen_keyspace_txt]) encoding with
+  match sopen (pjoin [dir; omen_dir; omen_keyspace_txt]) encoding None with
   | Some lines => keyspace_items lines []
   | None => Fail EIO
   end.
 Proof.
   cbv beta zeta delta [py_load_omen_keyspace].
-  match goal with |- context [rt_open (sopen ?x encoding)] => change x with (pjoin [dir; omen_dir; omen_keyspace_txt]) end.
-  destruct (sopen (pjoin [dir; omen_dir; omen_keyspace_txt]) encoding) as [lines|]; [|reflexivity].
+  match goal with |- context [rt_open (sopen ?x encoding None)] => change x with (pjoin [dir; omen_dir; omen_keyspace_txt]) end.
+  destruct (sopen (pjoin [dir; omen_dir; omen_keyspace_txt]) encoding None) as [lines|]; [|reflexivity].
   cbn [rt_open rt_bind]. unfold rt_for_file, rt_fopen. cbn [f_all f_rest].
   match goal with |- rt_for_lines _ _ ?b _ _ ?k0 = _ => set (body := b); set (K := k0) end.
   generalize (@nil (Z * Z)) as d. generalize lines at 1 as all.
@@ -772,11 +783,11 @@ End OmenKeyspaceFile.
    trainer wrote is the written list grouped by consecutive equal probability, and True *)
 Theorem roundtrip_guesser_translated :
   forall (repr : float -> str) (pfloat : str -> option float) (encb : N -> bool) (reason : pstr)
-         (copen : pstr -> pstr -> option (list pstr)) (filename encoding : pstr) (l : list (str * float)),
+         (copen : pstr -> pstr -> option pstr -> option (list pstr)) (filename encoding : pstr) (l : list (str * float)),
     Forall (fun it => safe (fst it) = true /\ float_ok repr pfloat (snd it)) l ->
     Forall (fun it => forallb encb (write_line repr it) = true) l ->
     Forall (fun it => okbF (snd it) = true) l ->
-    copen filename encoding = Some (lines_keep LB (write_file repr l)) ->
+    copen filename encoding (Some surrogateescape) = Some (lines_keep LB (write_file repr l)) ->
     py_load_from_file F64ops WS pfloat (enc_of encb reason) copen [] filename encoding
       = Done (map item_of (group_by_prob l), true)
     /\ flat_map (@it_values float) (map item_of (group_by_prob l)) = map fst l.
@@ -791,11 +802,11 @@ Qed.
 (* C07_roundtrip_scorer for the translated reader of the scorer *)
 Theorem roundtrip_scorer_translated :
   forall (repr : float -> str) (pfloat : str -> option float) (encb : N -> bool) (reason : pstr)
-         (copen : pstr -> pstr -> option (list pstr)) (filename encoding : pstr) (l : list (str * float)),
+         (copen : pstr -> pstr -> option pstr -> option (list pstr)) (filename encoding : pstr) (l : list (str * float)),
     Forall (fun it => safe (fst it) = true /\ float_ok repr pfloat (snd it)) l ->
     Forall (fun it => forallb encb (write_line repr it) = true) l ->
     NoDup (map fst l) ->
-    copen filename encoding = Some (lines_keep LB (write_file repr l)) ->
+    copen filename encoding (Some surrogateescape) = Some (lines_keep LB (write_file repr l)) ->
     py_scorer_load_from_file F64ops WS pfloat (enc_of encb reason) copen [] filename encoding = Done (l, true).
 Proof.
   intros repr pfloat encb reason copen filename encoding l H He Hnd Ho.
@@ -869,8 +880,8 @@ Qed.
    probability reported for the group (== as floats), and no accepted line is lost *)
 Theorem source_groups_same_prob :
   forall (ws : N -> bool) (pfloat : pstr -> option float) (encb : N -> bool) (reason : pstr)
-         (copen : pstr -> pstr -> option (list pstr)) (filename encoding : pstr) (lines : list pstr) gs,
-  copen filename encoding = Some lines ->
+         (copen : pstr -> pstr -> option pstr -> option (list pstr)) (filename encoding : pstr) (lines : list pstr) gs,
+  copen filename encoding (Some surrogateescape) = Some lines ->
   py_load_from_file F64ops ws pfloat (enc_of encb reason) copen [] filename encoding = Done (gs, true) ->
   exists its, guesser_items ws pfloat encb (onfail_of_reason reason) lines false = Some its /\
     (forall it v, In it gs -> In v (it_values it) -> exists q, In (v, q) its /\ same_prob q (it_prob it)) /\
